@@ -554,6 +554,88 @@ def rule_generator_offsets(ctx, cfg='prod-all'):
                          fact={'len_H': tfmt(ln), 'len_msgs': tfmt(m.need[0][1])}, expected='equal')
 
 
+_STRICT = {('any', 'Ge', (0, 1)), ('any', 'Le', (1, 0)), ('all', 'Lt', (0, 1)), ('all', 'Gt', (1, 0))}
+
+
+def _ascending_validated(prog, eng, body, fd, root, use_block):
+    """the list is in canonical form because anything else is refused: `list.windows(2).any(|w| w[0] >= w[1])` (or the `all` / mirrored forms)
+    is evaluated on every path to use_block, which is reached only on the outcome "every neighbour pair is strictly ascending"."""
+    from flow import GateAnalysis
+    for bi, t in body.calls():
+        cal = t.get('callee') or ''
+        q = cal.split('::')[-1]
+        if cal not in ('std::iter::Iterator::any', 'std::iter::Iterator::all') or len(t['args']) != 2 or not body.dominates(bi, use_block):
+            continue
+        # the receiver: windows(2) of the list
+        op, ok = t['args'][0], False
+        for _ in range(8):
+            if op['k'] not in ('copy', 'move'):
+                break
+            ds = [d for d in fd.defs.get(op['pl']['l'], []) if not d[2].get('dst', {}).get('p')]
+            if len(ds) != 1:
+                break
+            d = ds[0]
+            if d[0] == 'assign' and d[2]['rv']['k'] in ('use', 'ref'):
+                src = d[2]['rv'].get('pl') or d[2]['rv'].get('op', {}).get('pl')
+                if src is None:
+                    break
+                op = {'k': 'copy', 'pl': src}
+                continue
+            if d[0] == 'call' and (d[2].get('callee') or '').endswith('<impl [T]>::windows') and len(d[2]['args']) == 2:
+                a1 = d[2]['args'][1]
+                two = a1['k'] == 'const' and a1.get('int') == '2'
+                ok = two and d[2]['args'][0]['k'] in ('copy', 'move') and fd.resolve_place(d[2]['args'][0]['pl'])[0] == root
+                break
+            if d[0] == 'call' and (d[2].get('callee') or '') in ('std::iter::IntoIterator::into_iter', 'std::iter::Iterator::by_ref') and d[2]['args']:
+                op = d[2]['args'][0]
+                continue
+            break
+        if not ok or t['args'][1]['k'] not in ('copy', 'move'):
+            continue
+        ci = fd._closure_info(t['args'][1]['pl']['l'])
+        cb = prog.bodies.get(ci[0]) if ci else None
+        if cb is None:
+            continue
+        cfd = eng.fndep(cb.path)
+        rds = [d for d in cfd.defs.get(0, []) if not d[2].get('dst', {}).get('p')]
+        if len(rds) != 1 or rds[0][0] != 'assign' or rds[0][2]['rv']['k'] != 'binop':
+            continue
+        rv = rds[0][2]['rv']
+
+        def window_index(o):
+            """k for an operand that is a copy of `w[k]` (w = the closure's element parameter, k a literal)"""
+            for _ in range(4):
+                if o['k'] not in ('copy', 'move'):
+                    return None
+                pl = o['pl']
+                idx = [p_ for p_ in pl.get('p', []) if p_['k'] in ('index', 'constindex')]
+                if idx:
+                    r0 = cfd.resolve_place({'l': pl['l']})[0]
+                    if r0 != 2:
+                        return None
+                    if idx[0]['k'] == 'constindex':
+                        return idx[0].get('o')
+                    ids = [d for d in cfd.defs.get(idx[0]['l'], [])]
+                    if len(ids) == 1 and ids[0][0] == 'assign' and ids[0][2]['rv']['k'] == 'use' and ids[0][2]['rv']['op']['k'] == 'const':
+                        v = ids[0][2]['rv']['op'].get('int')
+                        return int(v) if v is not None and v.isdigit() else None
+                    return None
+                ds2 = [d for d in cfd.defs.get(pl['l'], []) if not d[2].get('dst', {}).get('p')]
+                if len(ds2) != 1 or ds2[0][0] != 'assign' or ds2[0][2]['rv']['k'] != 'use':
+                    return None
+                o = ds2[0][2]['rv']['op']
+            return None
+        ka, kb = window_index(rv['a']), window_index(rv['b'])
+        if (q, rv['op'], (ka, kb)) not in _STRICT:
+            continue
+        # polarity: the use is reached only when no pair violates (any -> false, all -> true)
+        ga = GateAnalysis(eng)
+        for g in ga.block_gates(fd, use_block):
+            if g.kind == 'call' and g.what == cal and g.args is t['args'] and g.dom and g.truth is (q == 'all'):
+                return True
+    return False
+
+
 def _normalised_before(prog, eng, body, fd, root, use_block, depth=0):
     """is the index list held in local `root` sorted and de-duplicated on every path to use_block?  Either both calls are made on it in this
     body and dominate the use, or it is the result of a local helper that returns a list on which both calls dominate the return."""
@@ -570,6 +652,8 @@ def _normalised_before(prog, eng, body, fd, root, use_block, depth=0):
             dedups.append(bi)
     if any(body.dominates(s, use_block) for s in sorts) and any(body.dominates(d, use_block) for d in dedups):
         return True, 'sort and dedup in %s' % body.path.split('::')[-1]
+    if _ascending_validated(prog, eng, body, fd, root, use_block):
+        return True, 'refused unless strictly ascending in %s' % body.path.split('::')[-1]
     ds = fd.defs.get(root, [])
     if depth < 3 and len(ds) == 1 and ds[0][0] == 'call':
         tgt = local_target(eng, ds[0][2])
@@ -607,6 +691,50 @@ def _normalised_before(prog, eng, body, fd, root, use_block, depth=0):
                     whys.append(why)
             return True, 'by every caller: ' + '; '.join(sorted(set(whys)))[:200]
     return False, 'no dominating sort + dedup'
+
+
+PAIRED_LISTS = [('disclosed_indexes', 'disclosed_messages'), ('disclosed_commitment_indexes', 'disclosed_committed_messages')]
+REORDERING = ('::sort', '::sort_unstable', '::sort_by', '::sort_by_key', '::sort_unstable_by', '::sort_unstable_by_key', '::sort_by_cached_key', '::dedup',
+              '::dedup_by', '::dedup_by_key', '::reverse', '::retain', '::retain_mut', '::swap', '::swap_remove', '::rotate_left', '::rotate_right',
+              'Vec::<T, A>::remove', 'Vec::<T, A>::insert', 'Vec::<T, A>::drain', 'Iterator::rev', '::select_nth_unstable')
+
+
+def rule_paired_lists_keep_their_order(ctx, cfg='prod-all', scope=('bbsplus::',)):
+    """On the verifier side the i-th disclosed message is the one claimed for the i-th index: the two lists are a list of pairs.  Putting one of
+    them (or a copy) into another order - sorting, removing duplicates, reversing, filtering - without the other changes which message is
+    claimed for which position: `proof_verify(msgs = [m0, m2], idx = [2, 0])` then verifies the claim (0, m0), (2, m2) the caller never made.
+    Decided per function that has both lists as parameters: no order-changing call has a receiver whose elements come from one list of a pair
+    and not from the other - unless the list is known to be strictly ascending there (refused otherwise), where such a call does nothing."""
+    prog, eng = ctx.prog(cfg), ctx.eng(cfg)
+    n = 0
+    for p, b in sorted(prog.bodies.items()):
+        if b.from_expansion or b.kind == 'Closure' or not p.startswith(scope):
+            continue
+        pairs = [(b.param_index(i), b.param_index(m)) for i, m in PAIRED_LISTS]
+        pairs = [(i, m) for i, m in pairs if i is not None and m is not None]
+        if not pairs:
+            continue
+        n += 1
+        fd = eng.fndep(p)
+        for ki, km in pairs:
+            bad = []
+            for bi, t in b.calls():
+                cal = t.get('callee') or ''
+                if not cal.endswith(REORDERING) or not t['args'] or t['args'][0]['k'] not in ('copy', 'move'):
+                    continue
+                at = {strip(a) for a in fd.read_op(t['args'][0]) if a[0] not in ('len', 'narrow')}
+                from_i = any(a[0] == 'p' and a[1] == ki for a in at)
+                from_m = any(a[0] == 'p' and a[1] == km for a in at)
+                if from_i == from_m:
+                    continue          # neither list, or a list of (index, message) pairs handled together
+                root = fd.resolve_place(t['args'][0]['pl'])[0]
+                if from_i and _ascending_validated(prog, eng, b, fd, root, bi):
+                    continue          # already strictly ascending: sorting / de-duplicating changes nothing
+                bad.append('L%s %s on %s' % (t.get('line'), cal.split('::')[-1], b.local_name(ki if from_i else km)))
+            yield Ob('RF-M', '%s#paired-order:%s' % (p, b.local_name(ki)), not bad,
+                     'the index list and the message list it is paired with position by position are never re-ordered one without the other',
+                     b.span, fact={'one_sided_reordering': bad[:4]}, expected='none')
+    yield Ob('RF-M', 'crate#paired-lists-examined', n >= 5, 'functions that take an index list together with its message list', '', fact=n, expected='>= 5', nontrivial=False)
 
 
 def rule_index_normalisation(ctx, cfg='prod-all'):
@@ -685,6 +813,15 @@ def _linear(zf, t, depth=0):
         for k, v in lb[0].items():
             out[k] = out.get(k, 0) + v
         return (out, la[1] + lb[1] + c)
+    if (zf.body.path, sy) in zf.za.diffs:
+        a, b = zf.za.diffs[(zf.body.path, sy)]
+        la, lb = _linear(zf, a, depth + 1), _linear(zf, b, depth + 1)
+        if la is None or lb is None:
+            return None
+        out = dict(la[0])
+        for k, v in lb[0].items():
+            out[k] = out.get(k, 0) - v
+        return ({k: v for k, v in out.items() if v != 0}, la[1] - lb[1] + c)
     return ({sy: 1}, c)
 
 
@@ -840,6 +977,44 @@ def rule_index_translation(ctx, cfg='prod-all'):
                  fact={'closure': which, 'adds': addend}, expected='L + 1')
         yield Ob('RF-B', '%s#generator-count' % b.path, is_L_plus_1(gcount), 'the signer generator count handed to prepare_parameters is L + 1 (the same offset as the index shift)',
                  b.span, fact={'count': gcount}, expected='L + 1')
+
+        # the blind generator count: one per committed message plus one.  The prover knows the committed messages (M = their number); the verifier
+        # has to arrive at the same number from what it is given: (L + 1) + (M + 1) = R1 + R2 + U + 1 (disclosed signer / committed positions, hidden
+        # responses).  Decided on the linear forms of the two counts.
+        def origin(sym):
+            """('len', parameter, field suffix) for the length of (a part of) a parameter, else the symbol"""
+            if not sym.startswith('len:'):
+                return sym
+            nm = sym[4:]
+            head, _, rest = nm.partition('.')
+            if head.startswith('_') and head[1:].isdigit():
+                k = _trace_identity(fd, b, {'k': 'copy', 'pl': {'l': int(head[1:])}})[0]
+                if k is not None:
+                    return ('len', b.local_name(k), rest)
+                r0, p0 = fd.base(int(head[1:]))        # through an accessor (`self.to_bbsplus_proof()`): the part of the parameter it returns
+                if fd.is_param(r0):
+                    return ('len', b.local_name(r0), rest)
+                return sym
+            k = b.param_index(head)
+            return ('len', head, rest) if k is not None else sym
+        bcount = None
+        for bi, t in b.calls():
+            if (local_target(eng, t) or '').endswith('prepare_parameters') and len(t['args']) >= 4:
+                bcount = _linear(zf, zf.term_op(t['args'][3]))
+        if is_len:
+            got = None if bcount is None else ({origin(k): v for k, v in bcount[0].items()}, bcount[1])
+            want = ({('len', 'committed_messages', ''): 1}, 1)
+        else:
+            got = None
+            if bcount is not None and gcount is not None:
+                tot = dict(gcount[0])
+                for k, v in bcount[0].items():
+                    tot[k] = tot.get(k, 0) + v
+                got = ({origin(k): v for k, v in tot.items() if v != 0}, gcount[1] + bcount[1])
+            want = ({('len', 'disclosed_indexes', ''): 1, ('len', 'disclosed_commitment_indexes', ''): 1, ('len', 'self', 'm_cap'): 1}, 1)
+        yield Ob('RF-B', '%s#blind-generator-count' % b.path, got == want,
+                 'one blind generator per committed message plus one: the prover asks for M + 1, the verifier for as many as make (L + 1) + (M + 1) = R1 + R2 + U + 1',
+                 b.span, fact={'count': str(bcount), 'as': str(got)}, expected=str(want))
 
 
 # ------------------------------------------------------------------ serde writer / reader agreement (derived impls, after macro expansion)
